@@ -486,10 +486,50 @@ pub(crate) fn remove_labels_and_constants(
     for item in items {
         if let Line::Instr { instr, .. } = item {
             instructions.push(instr_to_vminstr(instr, &label_to_idx, constants));
+            #[cfg(abra_verif)]
+            if crate::vm::verif::on(crate::vm::verif::T_ASM) {
+                verif_on_assemble(instructions.len() - 1, instr, instructions.last().unwrap(), &label_to_idx, constants);
+            }
         }
     }
 
     (instructions, label_to_idx)
+}
+
+/// verification hook: report the symbolic instruction, its encoding, and whatever the numbers in the encoding could refer
+/// to (constant-table entries, the positions of the labels the instruction names)
+#[cfg(abra_verif)]
+fn verif_on_assemble(
+    idx: usize,
+    instr: &Instr,
+    vm: &VmInstr,
+    label_to_idx: &LabelMap,
+    constants: &ConstantsHolder,
+) {
+    let asm = format!("{:?}", instr);
+    let vmd = format!("{:?}", vm);
+    let mut ints = vec![];
+    let mut floats = vec![];
+    for x in vmd
+        .split(|c: char| !c.is_ascii_digit())
+        .filter_map(|s| s.parse::<i64>().ok())
+    {
+        if ints.iter().any(|(y, _)| *y == x) || floats.iter().any(|(y, _)| *y == x) {
+            continue;
+        }
+        if (x as usize) < constants.int_constants.len() {
+            ints.push((x, constants.int_constants[x as u32]));
+        }
+        if (x as usize) < constants.float_constants.len() {
+            floats.push((x, constants.float_constants[x as u32].clone()));
+        }
+    }
+    let labels = label_to_idx
+        .iter()
+        .filter(|(l, _)| asm.contains(&format!("{:?}", l)))
+        .map(|(l, i)| (l.clone(), *i))
+        .collect();
+    crate::vm::verif::on_assemble(idx, asm, vmd, ints, floats, labels);
 }
 
 fn _get_label(s: &str) -> Option<String> {
